@@ -590,7 +590,7 @@ Section Oracles.
     match find (lookup_of r1) with
     | None => inl ENoRule
     | Some (rl, caps) =>
-      let written := set_caps r1 (Some caps) in               (* request.URL.Captures = entry.Parameters *)
+      let written := set_caps r1 (Some caps) in               (* request.URL.Captures = the values the lookup captured *)
       let r2 := if caches then written else build in          (* ruleImpl.Execute: request := ctx.Request() *)
       match slash_switch (r_slashes rl) r2 with
       | None => inl EArgument
